@@ -678,7 +678,7 @@ func c19R4(p *Prog, r *Report) {
 				if ix, ok := ast.Unparen(ue.X).(*ast.IndexExpr); ok {
 					io := objOf(info, ix.Index)
 					if io != nil && bestIdx != nil {
-						okIdx = c19CopyOf(fc, cs.V, io, bestIdx, 0)
+						okIdx = copyOfVar(fc, cs.V, io, bestIdx, 0)
 					}
 				}
 			}
@@ -1265,9 +1265,9 @@ func bitsUintSize(p *Prog) int64 {
 	return 64
 }
 
-// c19CopyOf: at vertex `at`, obj is target itself or every definition of obj reaching `at` is a
+// copyOfVar: at vertex `at`, obj is target itself or every definition of obj reaching `at` is a
 // plain copy (x = y / x := y) of a variable that is, at that definition, a copy of target.
-func c19CopyOf(fc *FuncCtx, at int, obj, target types.Object, depth int) bool {
+func copyOfVar(fc *FuncCtx, at int, obj, target types.Object, depth int) bool {
 	if obj == target {
 		return true
 	}
@@ -1305,7 +1305,7 @@ func c19CopyOf(fc *FuncCtx, at int, obj, target types.Object, depth int) bool {
 			return false
 		}
 		src := objOf(info, rhs)
-		if src == nil || !c19CopyOf(fc, d, src, target, depth+1) {
+		if src == nil || !copyOfVar(fc, d, src, target, depth+1) {
 			return false
 		}
 	}
